@@ -2,6 +2,7 @@
 from ..common import Ctx, Result
 from .. import memrun
 from . import _mem, _redis
+from . import _rabbit
 
 RULE = ("random histories (5..60 calls) of enqueue / consume (1-3 consumers concurrently, virtual-time timeouts) / ack / nack / "
         "reject / requeue / finish+start / clock advances over 1-2 queues, 3-5 consumers of all three categories with topic "
@@ -23,6 +24,7 @@ def run(ctx: Ctx) -> Result:
     _mem.run_histories(ctx, res, "c01", hists, WHICH, rng)
     # the Redis client over the fake server: sequential histories, whole command/reply stream against RedisBroker.v
     _redis.run_seq(ctx, res, "c01r", {"C01"}, "any", 150, 3000, rng)
+    _rabbit.run_seq(ctx, res, "c01q", {"C01"}, "any", 120, 2500, rng)
     return res
 
 
